@@ -203,8 +203,17 @@ impl LayoutSpace {
             for k in 0..=2 {
                 blocks.push(Block { k, fields: alphabet("thorough"), addrs: addresses("thorough"), size_sel: all_sizes.clone(), aligns: align_choices("thorough") });
             }
-            // k = 3 over the quick alphabet with the reduced attribute product
-            blocks.push(Block { k: 3, fields: alphabet("quick"), addrs: addresses("quick"), size_sel: red_sizes.clone(), aligns: red_aligns.clone() });
+            // k = 3 over a medium alphabet (the sub-alphabet plus, with auxiliary definitions, a
+            // nested struct, the empty aligned type and a base field) with the reduced attributes
+            let mut medium = sub.clone();
+            medium.push((MTy::b("u16").arr(3), true, false));
+            medium.push((MTy::Unk(3), false, false));
+            if with_aux {
+                medium.push((MTy::user("Inner4"), true, false));
+                medium.push((MTy::user("Empty8"), true, false));
+                medium.push((MTy::user("Inner4"), true, true));
+            }
+            blocks.push(Block { k: 3, fields: medium, addrs: addresses("quick"), size_sel: red_sizes.clone(), aligns: red_aligns.clone() });
             // k = 4 over the sub-alphabet
             blocks.push(Block { k: 4, fields: sub.clone(), addrs: sub_addresses(), size_sel: all_sizes.clone(), aligns: align_choices("quick") });
         } else {
